@@ -1515,3 +1515,514 @@ Proof.
   - apply diff_apply_0_seq in H. apply diff_apply_rev_seq. exact (reverse_seq false d T T1 HK HN HU H0 Hu Hs H).
   - apply diff_apply_rev_seq in H. apply diff_apply_0_seq. exact (reverse_seq true d T T1 HK HN HU H0 Hu Hs H).
 Qed.
+
+(* ------------------------------------------------------------------ *)
+(* two trees of the same shape, node by node                            *)
+
+Lemma oattrs_tmap_any f : forall o, oattrs (tmap f o) = map f (oattrs o).
+Proof.
+  apply (obj_ind' (fun o => oattrs (tmap f o) = map f (oattrs o))).
+  intros a c m i x Hc Hm Hi Hx. cbn [tmap]. rewrite !oattrs_Obj. cbn [map]. f_equal. rewrite !map_app.
+  assert (G : forall l, Forall (fun o => oattrs (tmap f o) = map f (oattrs o)) l ->
+              flat_map oattrs (map (tmap f) l) = map f (flat_map oattrs l)).
+  { intros l HF. induction HF as [|y r Hy _ IH]; [reflexivity|]. cbn [map flat_map]. rewrite map_app, Hy, IH. reflexivity. }
+  rewrite (G c Hc), (G m Hm), (G i Hi), (G x Hx). reflexivity.
+Qed.
+
+Lemma same_shape_length s o1 o2 : tmap s o1 = tmap s o2 -> List.length (oattrs o1) = List.length (oattrs o2).
+Proof.
+  intros E. apply (f_equal oattrs) in E. rewrite !oattrs_tmap_any in E.
+  apply (f_equal (@List.length _)) in E. rewrite !map_length in E. exact E.
+Qed.
+
+Lemma combine_app {A B} (l1 l1' : list A) (l2 l2' : list B) :
+  List.length l1 = List.length l2 -> combine (l1 ++ l1') (l2 ++ l2') = combine l1 l2 ++ combine l1' l2'.
+Proof.
+  revert l2. induction l1 as [|x r IH]; intros [|y r2] E; cbn in E; try discriminate; [reflexivity|].
+  cbn. rewrite IH by lia. reflexivity.
+Qed.
+
+Definition cflat (l1 l2 : list obj) : list (oattr * oattr) :=
+  flat_map (fun p => combine (oattrs (fst p)) (oattrs (snd p))) (combine l1 l2).
+
+Lemma combine_flat_kids s l1 : forall l2, map (tmap s) l1 = map (tmap s) l2 ->
+  combine (flat_map oattrs l1) (flat_map oattrs l2) = cflat l1 l2 /\
+  List.length (flat_map oattrs l1) = List.length (flat_map oattrs l2).
+Proof.
+  induction l1 as [|x r IH]; intros [|y r2] E; cbn [map] in E; try discriminate; [split; reflexivity|].
+  injection E as E1 E2. destruct (IH r2 E2) as [H1 H2]. pose proof (same_shape_length _ _ _ E1) as Hl.
+  unfold cflat. cbn [flat_map combine fst snd]. split.
+  - rewrite combine_app by exact Hl. rewrite H1. reflexivity.
+  - rewrite !app_length. lia.
+Qed.
+
+Lemma combine_oattrs_Obj s a1 c1 m1 i1 x1 a2 c2 m2 i2 x2 :
+  tmap s (Obj a1 c1 m1 i1 x1) = tmap s (Obj a2 c2 m2 i2 x2) ->
+  combine (oattrs (Obj a1 c1 m1 i1 x1)) (oattrs (Obj a2 c2 m2 i2 x2)) =
+  (a1, a2) :: cflat c1 c2 ++ cflat m1 m2 ++ cflat i1 i2 ++ cflat x1 x2.
+Proof.
+  cbn [tmap]. intros E. apply Obj_eq_inv in E. destruct E as (_ & Ec & Em & Ei & Ex).
+  destruct (combine_flat_kids s _ _ Ec) as [C1 C2]. destruct (combine_flat_kids s _ _ Em) as [M1 M2].
+  destruct (combine_flat_kids s _ _ Ei) as [I1 I2]. destruct (combine_flat_kids s _ _ Ex) as [X1 X2].
+  rewrite !oattrs_Obj. cbn [combine]. f_equal.
+  rewrite combine_app by exact C2. rewrite combine_app by exact M2. rewrite combine_app by exact I2.
+  rewrite C1, M1, I1, X1. reflexivity.
+Qed.
+
+Lemma Forall_combine_l {A B} (P : A -> Prop) (l1 : list A) : forall (l2 : list B),
+  Forall P l1 -> Forall (fun p => P (fst p)) (combine l1 l2).
+Proof.
+  induction l1 as [|x r IH]; intros [|y r2] H; cbn [combine]; try constructor.
+  - inversion H; assumption.
+  - apply IH. inversion H; assumption.
+Qed.
+
+Lemma map_tmap_pairs s l1 : forall l2, map (tmap s) l1 = map (tmap s) l2 ->
+  List.length l1 = List.length l2 /\ Forall (fun p => tmap s (fst p) = tmap s (snd p)) (combine l1 l2).
+Proof.
+  induction l1 as [|x r IH]; intros [|y r2] E; cbn [map] in E; try discriminate; [split; [reflexivity|constructor]|].
+  injection E as E1 E2. destruct (IH r2 E2) as [H1 H2]. split; [cbn; lia|]. cbn [combine]. constructor; assumption.
+Qed.
+
+(* trees of one shape are equal after node-wise maps that agree pairwise *)
+Lemma tmap_pairwise s f1 f2 : forall o1 o2, tmap s o1 = tmap s o2 ->
+  Forall (fun p => f1 (fst p) = f2 (snd p)) (combine (oattrs o1) (oattrs o2)) -> tmap f1 o1 = tmap f2 o2.
+Proof.
+  apply (obj_ind' (fun o1 => forall o2, tmap s o1 = tmap s o2 ->
+    Forall (fun p => f1 (fst p) = f2 (snd p)) (combine (oattrs o1) (oattrs o2)) -> tmap f1 o1 = tmap f2 o2)).
+  intros a1 c1 m1 i1 x1 Hc Hm Hi Hx [a2 c2 m2 i2 x2] E HF.
+  rewrite (combine_oattrs_Obj s _ _ _ _ _ _ _ _ _ _ E) in HF.
+  inversion HF as [|? ? Hh Ht]; subst. cbn [fst snd] in Hh.
+  apply Forall_app in Ht. destruct Ht as [Fc Ht]. apply Forall_app in Ht. destruct Ht as [Fm Ht].
+  apply Forall_app in Ht. destruct Ht as [Fi Fx].
+  cbn [tmap] in E. apply Obj_eq_inv in E. destruct E as (_ & Ec & Em & Ei & Ex).
+  assert (K : forall l1 l2,
+    Forall (fun o1 => forall o2, tmap s o1 = tmap s o2 ->
+       Forall (fun p => f1 (fst p) = f2 (snd p)) (combine (oattrs o1) (oattrs o2)) -> tmap f1 o1 = tmap f2 o2) l1 ->
+    map (tmap s) l1 = map (tmap s) l2 -> Forall (fun p => f1 (fst p) = f2 (snd p)) (cflat l1 l2) ->
+    map (tmap f1) l1 = map (tmap f2) l2).
+  { intros l1. induction l1 as [|y r IH]; intros [|z r2] HP El HFl; cbn [map] in El; try discriminate; [reflexivity|].
+    injection El as El1 El2. inversion HP as [|? ? Py Pr]; subst. unfold cflat in HFl. cbn [combine flat_map fst snd] in HFl.
+    apply Forall_app in HFl. destruct HFl as [F1 F2]. cbn [map]. f_equal; [apply Py; assumption|apply IH; assumption]. }
+  cbn [tmap]. f_equal; [exact Hh|apply K; assumption ..].
+Qed.
+
+(* the entries of one pair of objects *)
+Definition node_diff (a1 a2 : oattr) : list entry :=
+  fst (name_stage true a1 a2) ++ fst (type_attr_diff a1 a2) ++
+  fst (infos_diff (a_depth a1) (a_lidx a1) (a_infos a1) (a_infos a2)).
+Definition nd (p : oattr * oattr) : list entry := node_diff (fst p) (snd p).
+
+(* without TOO_COMPLEX, hwloc_diff_trees emits the entries of the object pairs in pre-order *)
+Lemma diff_trees_flat : forall o1 o2, has_tc (diff_trees o1 o2) = false ->
+  diff_trees o1 o2 = List.concat (map nd (combine (oattrs o1) (oattrs o2))).
+Proof.
+  apply (obj_ind' (fun o1 => forall o2, has_tc (diff_trees o1 o2) = false ->
+     diff_trees o1 o2 = List.concat (map nd (combine (oattrs o1) (oattrs o2))))).
+  intros a1 c1 m1 i1 x1 Hc Hm Hi Hx [a2 c2 m2 i2 x2] Htc.
+  pose proof (proj1 (diff_trees_tc_iff _ _) Htc) as Hsk. unfold skel in Hsk.
+  rewrite (combine_oattrs_Obj skel_attr _ _ _ _ _ _ _ _ _ _ Hsk).
+  rewrite diff_trees_unfold in *. destruct (pre_differs a1 a2); [discriminate Htc|]. cbv zeta in *.
+  set (r := stages a1 a2 c1 c2 m1 m2 i1 i2 x1 x2) in *.
+  destruct (snd r) eqn:Es.
+  { rewrite has_tc_app in Htc. cbn in Htc. rewrite orb_true_r in Htc. discriminate. }
+  assert (K : forall l1 l2,
+     Forall (fun o1 => forall o2, has_tc (diff_trees o1 o2) = false ->
+        diff_trees o1 o2 = List.concat (map nd (combine (oattrs o1) (oattrs o2)))) l1 ->
+     snd (walk diff_trees l1 l2) = false -> has_tc (fst (walk diff_trees l1 l2)) = false ->
+     fst (walk diff_trees l1 l2) = List.concat (map nd (cflat l1 l2))).
+  { intros l1 l2 HF Hs Ht. destruct (walk_spec diff_trees l1 l2) as [_ W2]. rewrite (W2 Hs) in *.
+    apply has_tc_concat in Ht. apply Forall_map in Ht. clear W2 Hs.
+    revert l2 Ht. induction HF as [|y r' Hy _ IH]; intros [|z r2] Ht; cbn [combine map List.concat]; try reflexivity.
+    cbn [combine] in Ht. inversion Ht as [|? ? Hh Htl]; subst. cbn [fst snd] in *.
+    unfold cflat. cbn [combine flat_map fst snd]. rewrite map_app, concat_app. rewrite (Hy z Hh). f_equal. apply IH. exact Htl. }
+  unfold r, stages in Es, Htc |- *.
+  repeat (apply seq_stage_snd in Es; let H := fresh "S" in destruct Es as [H Es]).
+  repeat (rewrite seq_stage_fst in Htc by assumption; rewrite has_tc_app in Htc; apply orb_false_iff in Htc;
+          let H := fresh "T" in destruct Htc as [H Htc]).
+  repeat (rewrite seq_stage_fst by assumption).
+  rewrite (K c1 c2 Hc) by assumption. rewrite (K m1 m2 Hm) by assumption.
+  rewrite (K i1 i2 Hi) by assumption. rewrite (K x1 x2 Hx) by assumption.
+  cbn [map List.concat]. rewrite !map_app, !concat_app.
+  change (nd (a1, a2)) with (fst (name_stage true a1 a2) ++ fst (type_attr_diff a1 a2) ++
+    fst (infos_diff (a_depth a1) (a_lidx a1) (a_infos a1) (a_infos a2))).
+  rewrite <- ?app_assoc. reflexivity.
+Qed.
+
+(* ------------------------------------------------------------------ *)
+(* applying the entries of one object                                   *)
+
+Definition fxp (a : oattr) := (a_depth a, a_lidx a, a_type a, a_subtype a, a_os_index a, a_sets a, a_tattr a).
+Definition dnl (a : oattr) := (a_name a, a_infos a, a_lmem a).
+(* equal but for total_memory *)
+Definition eqmt (x a : oattr) : Prop := fxp x = fxp a /\ dnl x = dnl a.
+
+(* an update that only touches name / info values / local memory / total
+   memory, and the first three only on the object with key [k] *)
+Definition quiet (k : key) (g : oattr -> oattr) : Prop :=
+  (forall x, fxp (g x) = fxp x) /\ (forall x, akey x <> k -> dnl (g x) = dnl x).
+
+Lemma quiet_kp k g : quiet k g -> forall x, akey (g x) = akey x.
+Proof. intros [H _] x. specialize (H x). unfold fxp in H. unfold akey. injection H. intros. congruence. Qed.
+Lemma quiet_id k : quiet k (fun x => x).
+Proof. split; reflexivity. Qed.
+Lemma quiet_comp k g1 g2 : quiet k g1 -> quiet k g2 -> quiet k (fun x => g2 (g1 x)).
+Proof.
+  intros Q1 Q2. pose proof (quiet_kp _ _ Q1) as K1. destruct Q1 as [A1 B1], Q2 as [A2 B2]. split; intros x.
+  - rewrite A2. apply A1.
+  - intros H. rewrite B2 by (rewrite K1; exact H). apply B1. exact H.
+Qed.
+Lemma quiet_eff b ad k anc : quiet k (eff_fn b ad k anc).
+Proof.
+  split; intros x.
+  - rewrite eff_fn_eq. destruct ad; destruct x; reflexivity.
+  - intros H. rewrite eff_fn_eq. apply key_neq_eqb in H. rewrite key_eqb_sym in H.
+    destruct ad; try reflexivity; unfold dnl; destruct x; cbn in *; rewrite ?H; reflexivity.
+Qed.
+
+Lemma run_comp g1 g2 T : run_eff (EObj g2) (run_eff (EObj g1) T) = run_eff (EObj (fun x => g2 (g1 x))) T.
+Proof. destruct T. unfold run_eff, set_root. cbn. rewrite tmap_tmap. reflexivity. Qed.
+Lemma run_id T : run_eff (EObj (fun x => x)) T = T.
+Proof. destruct T. unfold run_eff, set_root. cbn. f_equal. apply tmap_id_in. reflexivity. Qed.
+
+Lemma apply_seq_app b p1 : forall p2 T T1, apply_seq b p1 T = Some T1 -> apply_seq b (p1 ++ p2) T = apply_seq b p2 T1.
+Proof.
+  induction p1 as [|e r IH]; intros p2 T T1 H; cbn [apply_seq app] in *; [injection H as <-; reflexivity|].
+  destruct (apply_one b e T); try discriminate. apply IH. exact H.
+Qed.
+
+(* info values of one list, patched one after the other *)
+Definition ipatches (l1 l2 : infos_t) : list (string * string * string) :=
+  flat_map (fun p => if String.eqb (snd (fst p)) (snd (snd p)) then [] else [(fst (fst p), snd (fst p), snd (snd p))])
+           (combine l1 l2).
+Definition pentry (d : Z) (i : N) (q : string * string * string) : entry := EAttr d i (DInfo (fst (fst q)) (snd (fst q)) (snd q)).
+
+Lemma infos_walk_patches d i l1 : forall l2, map fst l1 = map fst l2 ->
+  fst (infos_walk d i l1 l2) = map (pentry d i) (ipatches l1 l2).
+Proof.
+  induction l1 as [|[n1 v1] r1 IH]; intros [|[n2 v2] r2] E; cbn [map fst] in E; try discriminate; [reflexivity|].
+  injection E as -> E. cbn [infos_walk]. rewrite String.eqb_refl. cbn [negb]. specialize (IH r2 E).
+  destruct (infos_walk d i r1 r2) as [e tc]. cbn [fst] in *. unfold ipatches. cbn [combine flat_map fst snd]. rewrite map_app.
+  fold (ipatches r1 r2). rewrite <- IH. destruct (String.eqb v1 v2); reflexivity.
+Qed.
+Lemma infos_diff_patches d i l1 l2 : map fst l1 = map fst l2 ->
+  fst (infos_diff d i l1 l2) = map (pentry d i) (ipatches l1 l2).
+Proof.
+  intros E. unfold infos_diff. assert (El : List.length l1 = List.length l2).
+  { apply (f_equal (@List.length _)) in E. rewrite !map_length in E. exact E. }
+  rewrite El, Nat.eqb_refl. cbn [negb]. apply infos_walk_patches. exact E.
+Qed.
+
+Fixpoint run_patches (ps : list (string * string * string)) (l : infos_t) : option infos_t :=
+  match ps with
+  | [] => Some l
+  | q :: r => if phit (fst (fst q)) (snd (fst q)) l then run_patches r (ptot (fst (fst q)) (snd (fst q)) (snd q) l) else None
+  end.
+
+Lemma str_nodup_NoDup l : str_nodup l = true <-> NoDup l.
+Proof.
+  induction l as [|x r IH]; cbn [str_nodup]; [split; [constructor|reflexivity]|].
+  rewrite andb_true_iff, negb_true_iff, IH. split.
+  - intros [H1 H2]. constructor; [|assumption]. intros Hin. apply str_in_In in Hin. congruence.
+  - intros H. inversion H as [|? ? H1 H2]; subst. split; [|assumption].
+    destruct (str_in x r) eqn:E; [|reflexivity]. apply str_in_In in E. contradiction.
+Qed.
+
+Lemma ptot_app_nohit n o v pre l : ~ In n (map fst pre) ->
+  ptot n o v (pre ++ l) = pre ++ ptot n o v l /\ phit n o (pre ++ l) = phit n o l.
+Proof.
+  induction pre as [|[m w] r IH]; intros H; [split; reflexivity|]. cbn [map fst In] in H.
+  assert (Hm : String.eqb m n = false) by (apply String.eqb_neq; intros E; apply H; left; exact E).
+  destruct IH as [I1 I2]; [intros Hin; apply H; right; exact Hin|].
+  cbn [app ptot]. rewrite Hm. cbn [andb]. rewrite I1. split; [reflexivity|].
+  unfold phit in *. cbn [existsb fst snd]. rewrite Hm. cbn [andb orb]. exact I2.
+Qed.
+
+Lemma run_patches_ok l1 : forall l2 pre, map fst l1 = map fst l2 -> NoDup (map fst (pre ++ l1)) ->
+  run_patches (ipatches l1 l2) (pre ++ l1) = Some (pre ++ l2).
+Proof.
+  induction l1 as [|[n v1] r1 IH]; intros [|[n2 v2] r2] pre E Hn; cbn [map fst] in E; try discriminate; [reflexivity|].
+  injection E as <- E. unfold ipatches. cbn [combine flat_map fst snd]. fold (ipatches r1 r2).
+  assert (Hnot : ~ In n (map fst pre)).
+  { rewrite map_app in Hn. cbn [map fst] in Hn. apply NoDup_remove_2 in Hn. intros Hin. apply Hn. apply in_or_app. left. exact Hin. }
+  destruct (String.eqb v1 v2) eqn:Ev.
+  - apply String.eqb_eq in Ev. subst v2. cbn [app].
+    replace (pre ++ (n, v1) :: r1) with ((pre ++ [(n, v1)]) ++ r1) by (rewrite <- app_assoc; reflexivity).
+    replace (pre ++ (n, v1) :: r2) with ((pre ++ [(n, v1)]) ++ r2) by (rewrite <- app_assoc; reflexivity).
+    apply IH; [exact E|]. rewrite <- app_assoc. exact Hn.
+  - cbn [app run_patches fst snd]. destruct (ptot_app_nohit n v1 v2 pre ((n, v1) :: r1) Hnot) as [P1 P2].
+    rewrite P2. unfold phit at 1. cbn [existsb fst snd]. rewrite !String.eqb_refl. cbn [andb orb].
+    rewrite P1. cbn [ptot]. rewrite !String.eqb_refl. cbn [andb].
+    replace (pre ++ (n, v2) :: r1) with ((pre ++ [(n, v2)]) ++ r1) by (rewrite <- app_assoc; reflexivity).
+    replace (pre ++ (n, v2) :: r2) with ((pre ++ [(n, v2)]) ++ r2) by (rewrite <- app_assoc; reflexivity).
+    apply IH; [exact E|]. rewrite <- app_assoc. rewrite map_app in *. cbn [map fst] in *. exact Hn.
+Qed.
+
+Lemma get_obj_run T g d i x anc (Hk : forall a, akey (g a) = akey a) :
+  get_obj T d i = Some (x, anc) -> get_obj (run_eff (EObj g) T) d i = Some (g x, anc).
+Proof. intros H. rewrite get_obj_run_obj by exact Hk. rewrite H. reflexivity. Qed.
+
+Lemma obj_patches_apply d i ps : forall T x anc fin,
+  get_obj T d i = Some (x, anc) -> run_patches ps (a_infos x) = Some fin ->
+  exists g, quiet (akey x) g /\ apply_seq false (map (pentry d i) ps) T = Some (run_eff (EObj g) T) /\
+            dnl (g x) = (a_name x, fin, a_lmem x).
+Proof.
+  induction ps as [|[[n o] v] r IH]; intros T x anc fin Hg Hr; cbn [run_patches fst snd] in Hr.
+  - injection Hr as <-. exists (fun y => y). split; [apply quiet_id|]. split; [cbn [map apply_seq]; rewrite run_id; reflexivity|reflexivity].
+  - destruct (phit n o (a_infos x)) eqn:Eh; [|discriminate].
+    set (f := eff_fn false (DInfo n o v) (akey x) anc).
+    assert (A1 : apply_one false (pentry d i (n, o, v)) T = Ok (run_eff (EObj f) T)).
+    { unfold pentry. cbn [fst snd]. apply (apply_obj_iff _ _ _ _ _ _ _ _ Hg). split; [|reflexivity].
+      rewrite guard_ok_phit. exact Eh. }
+    assert (Hfx : a_infos (f x) = ptot n o v (a_infos x) /\ a_name (f x) = a_name x /\ a_lmem (f x) = a_lmem x /\ akey (f x) = akey x).
+    { unfold f. rewrite eff_fn_eq. rewrite key_eqb_refl. destruct x; repeat split. }
+    destruct Hfx as (F1 & F2 & F3 & F4).
+    destruct (IH (run_eff (EObj f) T) (f x) anc fin) as (g & Qg & Ag & Dg).
+    + apply get_obj_run; [apply eff_fn_kp|exact Hg].
+    + rewrite F1. exact Hr.
+    + exists (fun y => g (f y)). split; [|split].
+      * apply quiet_comp; [apply quiet_eff|]. rewrite F4 in Qg. exact Qg.
+      * cbn [map apply_seq]. rewrite A1, Ag, run_comp. reflexivity.
+      * rewrite Dg, F2, F3. reflexivity.
+Qed.
+
+Lemma tinfo_patches_apply ps : forall T fin,
+  (0 <= t_nbl T)%Z -> run_patches ps (t_infos T) = Some fin ->
+  apply_seq false (map (pentry (t_nbl T) 0) ps) T = Some (set_tinfos fin T).
+Proof.
+  induction ps as [|[[n o] v] r IH]; intros T fin H0 Hr; cbn [run_patches fst snd] in Hr.
+  - injection Hr as <-. cbn. destruct T; reflexivity.
+  - destruct (phit n o (t_infos T)) eqn:Eh; [|discriminate].
+    assert (A1 : apply_one false (pentry (t_nbl T) 0 (n, o, v)) T = Ok (set_tinfos (ptot n o v (t_infos T)) T)).
+    { unfold pentry. cbn [fst snd]. apply apply_tinfo_iff; [apply get_obj_at_nbl; [exact H0|apply Z.eqb_refl]|].
+      split; [apply Z.eqb_refl|]. exists n, o, v. auto. }
+    cbn [map apply_seq]. rewrite A1.
+    specialize (IH (set_tinfos (ptot n o v (t_infos T)) T) fin H0 Hr).
+    change (t_nbl (set_tinfos (ptot n o v (t_infos T)) T)) with (t_nbl T) in IH. rewrite IH. destruct T; reflexivity.
+Qed.
+
+(* what the entries of the pair (a, b) establish on the object a *)
+Definition node_post (a b gx : oattr) : Prop :=
+  fxp gx = fxp a /\ a_name gx = a_name b /\ a_infos gx = a_infos b /\
+  (is_numa (a_type a) = true -> a_lmem gx = a_lmem b) /\ (is_numa (a_type a) = false -> a_lmem gx = a_lmem a).
+
+Lemma node_apply a b T x anc :
+  skel_attr a = skel_attr b -> NoDup (map fst (a_infos a)) ->
+  get_obj T (a_depth a) (a_lidx a) = Some (x, anc) -> eqmt x a ->
+  exists g, quiet (akey a) g /\ apply_seq false (node_diff a b) T = Some (run_eff (EObj g) T) /\ node_post a b (g x).
+Proof.
+  intros Hsk Hnd Hg [Hfx Hdn].
+  apply skel_attr_eq in Hsk. destruct Hsk as (Hfix & Hns & Hts & Hin).
+  assert (Hkx : akey x = akey a) by (unfold fxp in Hfx; unfold akey; injection Hfx; intros; congruence).
+  assert (Htx : a_type x = a_type a) by (unfold fxp in Hfx; injection Hfx; intros; congruence).
+  unfold dnl in Hdn. injection Hdn as Dn Di Dl.
+  (* stage 1: name *)
+  assert (S1 : exists g1, quiet (akey a) g1 /\ apply_seq false (fst (name_stage true a b)) T = Some (run_eff (EObj g1) T) /\
+                          dnl (g1 x) = (a_name b, a_infos a, a_lmem a)).
+  { apply name_stage_snd in Hns. unfold name_stage. cbn [andb].
+    assert (X : ostr_eqb (option_map (fun _ => EmptyString) (a_name a)) (option_map (fun _ => EmptyString) (a_name b)) = true)
+      by (apply ostr_eqb_eq; exact Hns).
+    rewrite X. cbn [negb fst]. unfold name_diff. destruct (ostr_eqb (a_name a) (a_name b)) eqn:En.
+    - apply ostr_eqb_eq in En. exists (fun y => y). split; [apply quiet_id|]. split; [cbn [apply_seq]; rewrite run_id; reflexivity|].
+      unfold dnl. rewrite Dn, Di, Dl, En. reflexivity.
+    - unfold name_set in Hns. destruct (a_name a) as [o|] eqn:Ea, (a_name b) as [n|] eqn:Eb; cbn in Hns; try discriminate.
+      + set (f := eff_fn false (DName (Some o) (Some n)) (akey x) anc).
+        exists f. split; [unfold f; rewrite Hkx; apply quiet_eff|]. split.
+        * cbn [apply_seq].
+          assert (A1 : apply_one false (EAttr (a_depth a) (a_lidx a) (DName (Some o) (Some n))) T = Ok (run_eff (EObj f) T)).
+          { apply (apply_obj_iff _ _ _ _ _ _ _ _ Hg). split; [|reflexivity]. cbn [guard_ok oldv newv]. rewrite Dn.
+            apply String.eqb_refl. }
+          rewrite A1. reflexivity.
+        * unfold f. rewrite eff_fn_eq, key_eqb_refl. unfold dnl. destruct x; cbn in *. subst. reflexivity. }
+  destruct S1 as (g1 & Q1 & A1 & D1).
+  pose proof (quiet_kp _ _ Q1) as K1.
+  pose proof (get_obj_run T g1 _ _ x anc K1 Hg) as Hg1.
+  (* stage 2: local memory *)
+  assert (S2 : exists g2, quiet (akey a) g2 /\
+     apply_seq false (fst (type_attr_diff a b)) (run_eff (EObj g1) T) = Some (run_eff (EObj g2) (run_eff (EObj g1) T)) /\
+     dnl (g2 (g1 x)) = (a_name b, a_infos a, if is_numa (a_type a) then a_lmem b else a_lmem a)).
+  { unfold type_attr_diff. destruct (is_numa (a_type a)) eqn:Enu.
+    - destruct ((a_lmem a =? a_lmem b)%N) eqn:El; cbn [fst].
+      + apply N.eqb_eq in El. exists (fun y => y). split; [apply quiet_id|]. split; [cbn [apply_seq]; rewrite run_id; reflexivity|].
+        rewrite D1, El. reflexivity.
+      + set (f := eff_fn false (DSize 0 (a_lmem a) (a_lmem b)) (akey (g1 x)) anc).
+        exists f. split; [unfold f; rewrite K1, Hkx; apply quiet_eff|]. split.
+        * cbn [apply_seq].
+          assert (A2 : apply_one false (EAttr (a_depth a) (a_lidx a) (DSize 0 (a_lmem a) (a_lmem b))) (run_eff (EObj g1) T) =
+                       Ok (run_eff (EObj f) (run_eff (EObj g1) T))).
+          { apply (apply_obj_iff _ _ _ _ _ _ _ _ Hg1). split; [|reflexivity]. cbn [guard_ok oldv newv].
+            assert (Ht1 : a_type (g1 x) = a_type a).
+            { destruct Q1 as [Qf _]. specialize (Qf x). unfold fxp in Qf. injection Qf. intros. congruence. }
+            unfold dnl in D1. injection D1 as _ _ D1l. rewrite Ht1, Enu, D1l, N.eqb_refl. reflexivity. }
+          rewrite A2. reflexivity.
+        * unfold f. rewrite eff_fn_eq, key_eqb_refl. unfold dnl in *. injection D1 as D1n D1i D1l.
+          destruct (g1 x); cbn in *. subst. reflexivity.
+    - destruct (is_memcmp_type (a_type a)); cbn [fst]; exists (fun y => y); (split; [apply quiet_id|]);
+        (split; [cbn [apply_seq]; rewrite run_id; reflexivity|]); rewrite D1; reflexivity. }
+  destruct S2 as (g2 & Q2 & A2 & D2).
+  pose proof (quiet_kp _ _ Q2) as K2.
+  pose proof (get_obj_run _ g2 _ _ (g1 x) anc K2 Hg1) as Hg2.
+  (* stage 3: infos *)
+  assert (Hi3 : a_infos (g2 (g1 x)) = a_infos a) by (unfold dnl in D2; injection D2; auto).
+  assert (R3 : run_patches (ipatches (a_infos a) (a_infos b)) (a_infos (g2 (g1 x))) = Some (a_infos b)).
+  { rewrite Hi3. apply (run_patches_ok (a_infos a) (a_infos b) [] Hin). exact Hnd. }
+  destruct (obj_patches_apply _ _ _ _ _ _ _ Hg2 R3) as (g3 & Q3 & A3 & D3).
+  rewrite K2, K1, Hkx in Q3.
+  exists (fun y => g3 (g2 (g1 y))). split; [apply quiet_comp; [apply quiet_comp; assumption|assumption]|]. split.
+  - unfold node_diff. rewrite (apply_seq_app _ _ _ _ _ A1). rewrite (apply_seq_app _ _ _ _ _ A2).
+    rewrite (infos_diff_patches _ _ _ _ Hin). rewrite A3, !run_comp. reflexivity.
+  - unfold node_post. unfold dnl in D3, D2. injection D2 as D2n D2i D2l. injection D3 as D3n D3i D3l.
+    split; [|split; [|split; [|split]]].
+    + destruct Q3 as [F3 _], Q2 as [F2 _], Q1 as [F1 _]. rewrite F3, F2, F1. exact Hfx.
+    + congruence.
+    + exact D3i.
+    + intros E. rewrite E in D2l. congruence.
+    + intros E. rewrite E in D2l. congruence.
+Qed.
+
+(* ------------------------------------------------------------------ *)
+(* applying the entries of all object pairs, then apply(build)          *)
+
+Lemma node_post_transfer a b y y' : fxp y' = fxp y -> dnl y' = dnl y -> node_post a b y -> node_post a b y'.
+Proof.
+  intros F D (P1 & P2 & P3 & P4 & P5). unfold dnl in D. injection D as Dn Di Dl. unfold node_post.
+  rewrite F, Dn, Di, Dl. auto.
+Qed.
+
+Lemma pairs_apply ps : forall T,
+  NoDup (map (fun p => akey (fst p)) ps) ->
+  (forall p, In p ps -> skel_attr (fst p) = skel_attr (snd p) /\ NoDup (map fst (a_infos (fst p))) /\
+      exists x anc, get_obj T (a_depth (fst p)) (a_lidx (fst p)) = Some (x, anc) /\ eqmt x (fst p)) ->
+  exists g, (forall x, fxp (g x) = fxp x) /\
+            (forall x, ~ In (akey x) (map (fun p => akey (fst p)) ps) -> dnl (g x) = dnl x) /\
+            apply_seq false (List.concat (map nd ps)) T = Some (run_eff (EObj g) T) /\
+            (forall p, In p ps -> forall x anc, get_obj T (a_depth (fst p)) (a_lidx (fst p)) = Some (x, anc) ->
+               node_post (fst p) (snd p) (g x)).
+Proof.
+  induction ps as [|[a b] r IH]; intros T Hnd Hall.
+  - exists (fun x => x). split; [reflexivity|]. split; [reflexivity|]. split; [cbn [map List.concat apply_seq]; rewrite run_id; reflexivity|intros p []].
+  - cbn [map fst] in Hnd. inversion Hnd as [|? ? Hna Hnr]; subst.
+    destruct (Hall (a, b) (or_introl eq_refl)) as (Hsk & Hin & xa & anca & Hga & Hea). cbn [fst snd] in *.
+    destruct (node_apply a b T xa anca Hsk Hin Hga Hea) as (g1 & Q1 & A1 & P1).
+    pose proof (quiet_kp _ _ Q1) as K1.
+    destruct (IH (run_eff (EObj g1) T) Hnr) as (g2 & F2 & D2 & A2 & P2).
+    { intros q Hq. destruct (Hall q (or_intror Hq)) as (Hs & Hi & x & anc & Hg & [Hfx Hdx]). split; [exact Hs|]. split; [exact Hi|].
+      exists (g1 x), anc. split; [apply get_obj_run; assumption|]. destruct Q1 as [QF QD]. split.
+      - rewrite QF. exact Hfx.
+      - rewrite QD; [exact Hdx|]. intros E. apply Hna. apply in_map_iff. exists q. split; [|exact Hq].
+        rewrite <- E. unfold fxp in Hfx. unfold akey. injection Hfx. intros. congruence. }
+    exists (fun x => g2 (g1 x)). split; [|split; [|split]].
+    + intros x. rewrite F2. apply Q1.
+    + intros x Hx. cbn [map fst In] in Hx. rewrite D2.
+      * apply Q1. intros E. apply Hx. left. symmetry. exact E.
+      * rewrite K1. intros Hi'. apply Hx. right. exact Hi'.
+    + cbn [map List.concat]. unfold nd at 1. cbn [fst snd]. rewrite (apply_seq_app _ _ _ _ _ A1), A2, run_comp. reflexivity.
+    + intros p [<-|Hp] x anc Hg; cbn [fst snd] in *.
+      * rewrite Hga in Hg. injection Hg as <- <-. apply (node_post_transfer a b (g1 xa)); [apply F2| |exact P1].
+        apply D2. rewrite K1. destruct Hea as [Hfx _]. replace (akey xa) with (akey a); [exact Hna|].
+        unfold fxp in Hfx. unfold akey. injection Hfx. intros. congruence.
+      * apply (P2 p Hp (g1 x) anc). apply get_obj_run; assumption.
+Qed.
+
+Definition Hdepths (T : topo) : Prop := forall a, In a (attrs T) -> depth_addressable (t_nbl T) (a_depth a) = true.
+Lemma depths_addressable_Hdepths T : depths_addressable T = true <-> Hdepths T.
+Proof. unfold depths_addressable, Hdepths. apply forallb_forall. Qed.
+
+Lemma get_obj_self T a : Hkeys T -> Hdepths T -> In a (attrs T) -> exists anc, get_obj T (a_depth a) (a_lidx a) = Some (a, anc).
+Proof.
+  intros HK HD Ha. unfold get_obj. rewrite (HD a Ha). unfold lookup.
+  destruct (find (fun p => key_eqb (akey (fst p)) (a_depth a, a_lidx a)) (table T)) as [[a' anc]|] eqn:Ef.
+  - apply find_some in Ef. destruct Ef as [Hin Hk]. cbn [fst] in Hk. apply key_eqb_eq in Hk.
+    assert (Ha' : In a' (attrs T)) by (unfold attrs; apply in_map_iff; exists (a', anc); auto).
+    assert (a' = a) by (apply (unique_by_key _ _ _ HK Ha' Ha); exact Hk). subst. eauto.
+  - exfalso. unfold attrs in Ha. apply in_map_iff in Ha. destruct Ha as [[a0 anc0] [E Hin]]. cbn [fst] in E. subst a0.
+    pose proof (find_none _ _ Ef _ Hin) as Hn. cbn [fst] in Hn. unfold akey in Hn. rewrite key_eqb_refl in Hn. discriminate.
+Qed.
+
+Lemma map_eq_combine {A B} (f : A -> B) l1 : forall l2, map f l1 = map f l2 ->
+  (forall p, In p (combine l1 l2) -> f (fst p) = f (snd p)) /\ map fst (combine l1 l2) = l1.
+Proof.
+  induction l1 as [|x r IH]; intros [|y r2] E; cbn [map] in E; try discriminate; [split; [intros p []|reflexivity]|].
+  injection E as E1 E2. destruct (IH r2 E2) as [H1 H2]. split.
+  - intros p [<-|Hp]; [exact E1|apply H1; exact Hp].
+  - cbn. rewrite H2. reflexivity.
+Qed.
+
+Lemma node_post_erase a b y : skel_attr a = skel_attr b -> node_post a b y -> erase_attr y = erase_attr b.
+Proof.
+  intros Hsk (P1 & P2 & P3 & P4 & P5). apply skel_attr_eq in Hsk. destruct Hsk as (Hfix & _ & Hts & _).
+  unfold fxp in P1. injection P1 as F1 F2 F3 F4 F5 F6 F7.
+  unfold fixed_part in Hfix. injection Hfix as G1 G2 G3 G4 G5.
+  apply erase_attr_eq. split; [unfold fixed_part; congruence|]. split; [exact P2|]. split; [|exact P3].
+  apply type_attr_nil; [congruence|]. rewrite F3, <- G2. split.
+  - destruct (is_numa (a_type a)) eqn:En; [apply P4; reflexivity|reflexivity].
+  - unfold type_attr_diff in Hts. destruct (is_numa (a_type a)) eqn:En.
+    + assert (is_memcmp_type (a_type a) = false) as -> by (apply is_numa_true in En; rewrite En; reflexivity). reflexivity.
+    + destruct (is_memcmp_type (a_type a)); [|reflexivity]. cbn [snd] in Hts. apply negb_false_iff, String.eqb_eq in Hts. congruence.
+Qed.
+
+Theorem apply_build A B d :
+  Hkeys A -> Hnames A -> Hdepths A -> (0 <= t_nbl A)%Z ->
+  diff_build 0 A B = BRet 0 d ->
+  exists g, (forall x, fxp (g x) = fxp x) /\
+            diff_apply 0 d A = ARet 0 (set_tinfos (t_infos B) (run_eff (EObj g) A)) /\
+            erase (tmap g (t_root A)) = erase (t_root B).
+Proof.
+  intros HK HN HD H0 Hb.
+  destruct (build_rc _ _ _ _ Hb) as [[E _]|[_ Htc]]; [discriminate E|].
+  unfold diff_build, diff_build_gen in Hb. cbn [N.eqb negb] in Hb. change (diff_trees_gen true) with diff_trees in Hb.
+  set (dt := diff_trees (t_root A) (t_root B)) in *.
+  destruct (has_tc dt) eqn:Edt; [discriminate Hb|]. destruct (_ || _); [discriminate Hb|].
+  pose proof (infos_diff_tc (t_nbl A) 0 (t_infos A) (t_infos B)) as Hti.
+  destruct (infos_diff (t_nbl A) 0 (t_infos A) (t_infos B)) as [ti [|]] eqn:Eti; [discriminate Hb|].
+  destruct (dists_differ _ _); [discriminate Hb|]. destruct (memattrs_cmp _ _ _) as [[|]|]; try discriminate Hb.
+  destruct (negb _); [discriminate Hb|]. injection Hb as <-.
+  cbn [snd] in Hti. pose proof (proj1 Hti eq_refl) as Hnames_t.
+  assert (Eti' : ti = map (pentry (t_nbl A) 0) (ipatches (t_infos A) (t_infos B))).
+  { rewrite <- (infos_diff_patches _ _ _ _ Hnames_t), Eti. reflexivity. }
+  pose proof (proj1 (diff_trees_tc_iff _ _) Edt) as Hsk. unfold skel in Hsk.
+  unfold dt. rewrite (diff_trees_flat _ _ Edt).
+  set (ps := combine (oattrs (t_root A)) (oattrs (t_root B))).
+  assert (Hmap : map skel_attr (oattrs (t_root A)) = map skel_attr (oattrs (t_root B))).
+  { rewrite <- !oattrs_tmap_any, Hsk. reflexivity. }
+  destruct (map_eq_combine skel_attr _ _ Hmap) as [Hps Hfst]. fold ps in Hps, Hfst.
+  assert (Hin_l : forall p, In p ps -> In (fst p) (attrs A)).
+  { intros p Hp. rewrite attrs_oattrs, <- Hfst. apply in_map. exact Hp. }
+  destruct (pairs_apply ps A) as (g & Fg & Dg & Ag & Pg).
+  { replace (map (fun p => akey (fst p)) ps) with (map akey (map fst ps)) by (rewrite map_map; reflexivity).
+    rewrite Hfst. exact HK. }
+  { intros p Hp. split; [apply Hps; exact Hp|]. split.
+    - apply str_nodup_NoDup. apply (proj1 HN). apply Hin_l. exact Hp.
+    - destruct (get_obj_self A (fst p) HK HD (Hin_l p Hp)) as [anc Hg]. exists (fst p), anc. split; [exact Hg|split; reflexivity]. }
+  exists g. split; [exact Fg|]. split.
+  - apply diff_apply_0_seq. rewrite (apply_seq_app _ _ _ _ _ Ag). rewrite Eti'.
+    replace (t_nbl A) with (t_nbl (run_eff (EObj g) A)) by (destruct A; reflexivity).
+    apply tinfo_patches_apply; [destruct A; exact H0|].
+    replace (t_infos (run_eff (EObj g) A)) with (t_infos A) by (destruct A; reflexivity).
+    apply (run_patches_ok (t_infos A) (t_infos B) [] Hnames_t). apply str_nodup_NoDup. exact (proj2 HN).
+  - unfold erase. rewrite tmap_tmap. apply (tmap_pairwise skel_attr); [exact Hsk|]. fold ps.
+    apply Forall_forall. intros p Hp. apply (node_post_erase (fst p)); [apply Hps; exact Hp|].
+    destruct (get_obj_self A (fst p) HK HD (Hin_l p Hp)) as [anc Hg]. exact (Pg p Hp _ _ Hg).
+Qed.
+
+(* the patched topology is indistinguishable from B for hwloc_topology_diff_build *)
+Theorem apply_build_then_build A B d :
+  Hkeys A -> Hnames A -> Hdepths A -> (0 <= t_nbl A)%Z ->
+  diff_build 0 A B = BRet 0 d ->
+  exists A', diff_apply 0 d A = ARet 0 A' /\ diff_build 0 A' B = BRet 0 [] /\
+             erase (t_root A') = erase (t_root B) /\ t_infos A' = t_infos B /\
+             map fxp (attrs A') = map fxp (attrs A).
+Proof.
+  intros HK HN HD H0 Hb. destruct (apply_build A B d HK HN HD H0 Hb) as (g & Fg & Ha & He).
+  exists (set_tinfos (t_infos B) (run_eff (EObj g) A)). split; [exact Ha|].
+  assert (Hex : expressible A B) by (apply (proj2 (build_toocomplex_iff' A B)); eauto).
+  destruct Hex as (_ & _ & Htop).
+  assert (Hroot : t_root (set_tinfos (t_infos B) (run_eff (EObj g) A)) = tmap g (t_root A)) by (destruct A; reflexivity).
+  split; [|split; [|split]].
+  - apply build_zero_iff. rewrite Hroot. split; [exact He|]. split; [destruct A; reflexivity|].
+    destruct A; exact Htop.
+  - rewrite Hroot. exact He.
+  - destruct A; reflexivity.
+  - unfold attrs, table. rewrite Hroot. fold (oattrs (tmap g (t_root A))). rewrite oattrs_tmap_any, map_map.
+    apply map_ext. exact Fg.
+Qed.
